@@ -46,6 +46,15 @@ def _path_totals(b):
                         nb += 1
                     if a['k'] == 'const' and 'from_ptr' in (a['c'].get('fn_pretty') or ''):
                         nb -= 1
+                    d = U.def_rvalue(b, a)
+                    if d and d[0] == 'rv' and d[3]['k'] == 'aggregate' and d[3].get('closure') and b.crate is not None:
+                        cb = b.crate.by_key.get(d[3]['closure'])
+                        if cb is not None:
+                            tots = {p[0] for p in _path_totals(cb)}
+                            if len(tots) == 1:
+                                nb += tots.pop()
+                            if any(U.callee_name(tt) in ('null_mut', 'null') for _, tt in cb.calls(include_cleanup=False)):
+                                nr = True
             if std and nm in ('null_mut', 'null') and t['dest']['local'] == 0:
                 nr = True
             if std and nm in ('null_mut', 'null'):
@@ -110,11 +119,7 @@ def rule_refcnt_siblings(fx, col):
             b = ms.get(nm)
             if b is None:
                 continue
-            nulls = [bb for bb, t in b.calls(include_cleanup=False) if U.callee_name(t) in ('null_mut', 'null')] or \
-                    [1 for bb, t in b.calls(include_cleanup=False) for a in t['args'] if a['k'] == 'const' and 'null_mut' in (a['c'].get('fn_pretty') or '')]
-            pred = sorted({U.callee_name(t) for bb, t in b.calls(include_cleanup=False) if U.callee_name(t) in ('ptr_eq', 'is_none', 'map', 'is_dangling', 'eq')})
-            pol = _null_polarity(b)
-            prod[nm] = (bool(nulls), pred, pol)
+            prod[nm] = _null_condition(fx, b)
         fb = ms.get('from_ptr')
         from_null = False
         guarded = True
@@ -129,11 +134,11 @@ def rule_refcnt_siblings(fx, col):
                     if from_null and not (g and all(x[1] is False for x in g)):
                         guarded = False
         if 'into_ptr' in prod and 'as_ptr' in prod:
-            sym = prod['into_ptr'][0] == prod['as_ptr'][0] == from_null
-            same_pred = prod['into_ptr'][1] == prod['as_ptr'][1] and prod['into_ptr'][2] == prod['as_ptr'][2]
+            sym = (prod['into_ptr'] is not None) == (prod['as_ptr'] is not None) == from_null
+            same_pred = prod['into_ptr'] == prod['as_ptr']
             col.add('REFCNT-SIBLINGS', '<%s>|null symmetry' % kind, sym and same_pred and guarded,
-                    'produces null in into_ptr: %s (%s, null on %s), in as_ptr: %s (%s, null on %s); from_ptr tests is_null: %s, inner conversion only when non-null: %s'
-                    % (prod['into_ptr'][0], prod['into_ptr'][1], prod['into_ptr'][2], prod['as_ptr'][0], prod['as_ptr'][1], prod['as_ptr'][2], from_null, guarded))
+                    'null is produced in into_ptr when %s, in as_ptr when %s; from_ptr tests is_null: %s, inner conversion only when non-null: %s'
+                    % (prod['into_ptr'], prod['as_ptr'], from_null, guarded))
         if st.startswith('std::option::Option<'):
             b = ms.get('from_ptr')
             if b is not None:
@@ -149,6 +154,33 @@ def rule_refcnt_siblings(fx, col):
                 ctl += 1
     col.add('REFCNT-SIBLINGS', 'crate|no upgrade', not ups, 'calls to upgrade(): %s' % ups)
     col.add('REFCNT-SIBLINGS', 'crate|positive control (ptr_eq found)', ctl >= (1 if not fx.has_feature('weak') else 5), 'the same call enumeration finds %d ptr_eq call(s)' % ctl)
+
+
+def _null_condition(fx, b):
+    """when does this conversion produce the null pointer? 'on None' (Option-shaped), ('pred', name, polarity), or None"""
+    lib = fx.lib
+    # Option shape: .map(..).unwrap_or_else(null_mut) with the null in a fn item or a closure
+    for bb, t in b.calls(include_cleanup=False):
+        if U.callee_name(t) in ('unwrap_or_else', 'unwrap_or', 'map_or', 'map_or_else') and 'option::Option' in t['callee'].get('path', ''):
+            for a in t['args']:
+                if a['k'] == 'const' and 'null' in (a['c'].get('fn_pretty') or ''):
+                    return 'on None'
+                d = U.def_rvalue(b, a)
+                if d and d[0] == 'rv' and d[3]['k'] == 'aggregate' and d[3].get('closure'):
+                    cb = lib.by_key.get(d[3]['closure'])
+                    if cb is not None and any(U.callee_name(tt) in ('null_mut', 'null') for _, tt in cb.calls(include_cleanup=False)):
+                        return 'on None'
+                if d and d[0] == 'call' and U.callee_name(d[2]) in ('null_mut', 'null'):
+                    return 'on None'
+    for bb, t in b.calls(include_cleanup=False):
+        if U.callee_name(t) in ('null_mut', 'null'):
+            for f in U.dominating_facts(b, bb):
+                if f[0] == 'variant' and b.local_ty(f[1]).replace('&', '').strip().startswith('std::option::Option<') and f[2] == 0:
+                    return 'on None'
+                if f[0] == 'bool' and f[1] and f[1][0] == 'call':
+                    return ('pred', U.callee_name(f[1][2]), f[2])
+            return ('unconditional',)
+    return None
 
 
 def _null_path(b, path):
